@@ -38,8 +38,37 @@
 (* the same pair of nodes.                                                 *)
 (*                                                                         *)
 (* A request is                                                            *)
-(*   [src, dst, amt, feeLimit, cltvLimit, outChans, lastHop, ignNodes,     *)
-(*    ignPairs, hints, finalDelta, height]                                 *)
+(*   [via, self, src, dst, amt, feeLimit, cltvLimit, outChans, lastHop,    *)
+(*    ignNodes, ignPairs, hints, nodes, finalDelta, height,                *)
+(*    pay, payAddr, meta, recs, fhRecs, enc,                               *)
+(*    mppDest, maxParts, shards, maxShard, minShard]                       *)
+(* via  = the entry point the route was obtained through (follow-up b19c): *)
+(*   "findPath"      findPath + newRoute composed as FindRoute does        *)
+(*   "FindRoute"     ChannelRouter.FindRoute (QueryRoutes)                 *)
+(*   "RequestRoute"  paymentSession.RequestRoute (SendPayment)             *)
+(*   "BuildRoute"    ChannelRouter.BuildRoute (nodes = the hop list given) *)
+(* self = the node that runs the pathfinder; src = the node the route      *)
+(*   starts at (QueryRoutes may ask for a route from a FOREIGN node).  A   *)
+(*   hop is LOCAL when it leaves self: self knows the spendable bandwidth  *)
+(*   of its own channels and uses that instead of the gossip `disabled`    *)
+(*   bit; every other hop - including the first hop of a foreign source -  *)
+(*   must be an enabled direction.                                         *)
+(* The final-hop payload ingredients (what the invoice / the caller wants  *)
+(*   delivered to the recipient, BOLT 4 "payload for the last node"):      *)
+(*   pay = total amount of the payment (amt = what is asked for now, a     *)
+(*   shard when amt < pay); payAddr = 0/1 the invoice has a payment secret *)
+(*   (payment_data record: secret + total); meta = length of the payment   *)
+(*   metadata, -1 = none; recs = custom records for the recipient, a       *)
+(*   sequence of [t, n] (type >= 65536, length) sorted by type; enc = -1   *)
+(*   or the length of the encrypted recipient data of an introduction-node *)
+(*   -only blinded path whose introduction node is dst (then the last hop  *)
+(*   also carries the path key and total_amount_msat and no payment_data); *)
+(*   fhRecs = 0/1 custom records for the FIRST hop's update_add_htlc were  *)
+(*   given (wire message, NOT part of the onion - no clause depends on it).*)
+(* Splitting (RequestRoute only): mppDest = 0/1 the recipient's features   *)
+(*   allow multi-part payments; maxParts / shards = the limit on and the   *)
+(*   current number of in-flight shards; maxShard = 0 or the largest shard *)
+(*   allowed; minShard = the smallest shard the session will try.          *)
 (* feeLimit / cltvLimit = -1 mean "unlimited"; cltvLimit bounds the total  *)
 (* time lock relative to the current height INCLUDING the final delta (the *)
 (* user-level meaning, lnrpc cltv_limit); outChans = <<>> and lastHop = "" *)
@@ -51,13 +80,36 @@
 (* hints x -> y -> target) it belongs to and is not used by the judge.     *)
 (*                                                                         *)
 (* A route is                                                              *)
-(*   [found, src, totalAmt, totalTL, totalFees, recvAmt, payload, hops]    *)
-(* hops[k] = [chan, to, amt, tl, fee]: channel id, node the hop leads to,  *)
-(* amt_to_forward and outgoing_cltv_value of that node's onion payload,    *)
-(* and the fee lnd reports for the hop (Route.HopFee).                     *)
+(*   [found, src, totalAmt, totalTL, totalFees, recvAmt, packed, onionOk,  *)
+(*    hops]                                                                *)
+(* hops[k] = [chan, to, amt, tl, fee, mpp, meta, enc, bp, tot, recs, size]:*)
+(* channel id, node the hop leads to, amt_to_forward and                   *)
+(* outgoing_cltv_value of that node's onion payload, the fee lnd reports   *)
+(* for the hop (Route.HopFee), and the other records of that node's        *)
+(* payload: mpp = -1 or the total_msat of the payment_data record, meta =  *)
+(* -1 or the metadata length, enc = -1 or the length of the encrypted      *)
+(* recipient data, bp = 0/1 path key present, tot = total_amount_msat (0 = *)
+(* absent), recs = custom records [t, n].  The short_channel_id record of  *)
+(* a payload is not recorded: it is the channel of the next hop.           *)
+(* Oracle fields (Go side, never computed by lnd's own size estimate):     *)
+(* size = the number of bytes the node's payload REALLY occupies in the    *)
+(* onion (sphinx HopPayload.NumBytes of the serialized TLV stream: length  *)
+(* prefix + stream + 32 byte HMAC; 0 when not packed), packed = 0/1 every  *)
+(* payload could be serialized, onionOk = 0/1 sphinx.NewOnionPacket        *)
+(* accepted the route.  The 1300-byte rule is stated over sizes computed   *)
+(* HERE from the recorded payload contents (HopSize, BOLT 4 / BOLT 1 TLV   *)
+(* encoding); SizeModelAgrees ties that computation to the real bytes.     *)
+(*                                                                         *)
+(* Known deviations of lnd in the payload clause (reported, not repaired;   *)
+(* the trace judge reports them under the keys of known_findings.json):    *)
+(* findPath estimates the final hop's payload before the route exists      *)
+(* (lastHopPayloadSize) and leaves out (F27) the extra bytes of an MPP     *)
+(* total wider than the shard amount, and for an introduction-node-only    *)
+(* blinded path the whole blinded payload (RequestRoute) resp.             *)
+(* total_amount_msat and the custom records (FindRoute).                   *)
 (*                                                                         *)
 (* Integers: TLC's are 32 bit.  All amounts of the generated universe are  *)
-(* <= ~1.2*10^5 msat and |rates| <= 10^4 ppm, so every product stays below *)
+(* <= ~1.2*10^6 msat and |rates| <= 10^4 ppm, so every product stays below *)
 (* 2^31 (chosen instead of Apalache: the arithmetic at 64-bit scale is     *)
 (* C09's subject, here the subject is the composition along a path).       *)
 (***************************************************************************)
@@ -91,10 +143,14 @@ NoInbound == [inBase |-> 0, inRate |-> 0]
 InPol(g, id, n) == IF HasDir(g, id, n) THEN Pol(g, id, n) ELSE NoInbound
 
 NoRoute == [found |-> 0, src |-> "", totalAmt |-> 0, totalTL |-> 0, totalFees |-> 0,
-            recvAmt |-> 0, payload |-> 0, hops |-> <<>>]
-NoReq   == [src |-> "", dst |-> "", amt |-> 0, feeLimit |-> -1, cltvLimit |-> -1, outChans |-> <<>>,
-            lastHop |-> "", ignNodes |-> <<>>, ignPairs |-> <<>>, hints |-> <<>>, finalDelta |-> 0,
-            height |-> 0]
+            recvAmt |-> 0, packed |-> 0, onionOk |-> 0, hops |-> <<>>]
+NoReq   == [via |-> "findPath", self |-> "", src |-> "", dst |-> "", amt |-> 0, feeLimit |-> -1,
+            cltvLimit |-> -1, outChans |-> <<>>, lastHop |-> "", ignNodes |-> <<>>, ignPairs |-> <<>>,
+            hints |-> <<>>, nodes |-> <<>>, finalDelta |-> 0, height |-> 0,
+            pay |-> 0, payAddr |-> 0, meta |-> -1, recs |-> <<>>, fhRecs |-> 0, enc |-> -1,
+            mppDest |-> 0, maxParts |-> 1, shards |-> 0, maxShard |-> 0, minShard |-> 1]
+\* the payload records of a hop that carries nothing but the forwarding instructions
+PlainHop == [mpp |-> -1, meta |-> -1, enc |-> -1, bp |-> 0, tot |-> 0, recs |-> <<>>]
 
 Range(s) == {s[i] : i \in DOMAIN s}
 \* what the pathfinder may route over when serving q: the graph plus the request's route hints
@@ -113,21 +169,24 @@ AmtOn(r, k) == IF k = 1 THEN r.totalAmt ELSE r.hops[k - 1].amt
 TlOn(r, k)  == IF k = 1 THEN r.totalTL  ELSE r.hops[k - 1].tl
 \* the directed policy hop k travels under (only meaningful when Connected)
 HopPol(g, q, r, k) == Pol(g, r.hops[k].chan, NodeAt(q, r, k - 1))
+\* hop k leaves the node that runs the pathfinder (its own channel)
+Local(q, r, k) == NodeAt(q, r, k - 1) = q.self
 
 \* "connected from source to target over existing enabled channel directions":
-\* enabled from the second hop on - on the first hop (a local channel) usability is the
-\* local bandwidth, the gossip `disabled` bit of our own channel does not decide it
+\* enabled unless the hop is LOCAL - on the pathfinding node's own channel usability is
+\* the local bandwidth (HopBounds), the gossip `disabled` bit of our own channel does not
+\* decide it.  The first hop of a foreign source is not local: it must be enabled.
 Connected(g, q, r) ==
   /\ N(r) >= 1
   /\ r.src = q.src
   /\ \A k \in 1..N(r) :
        /\ HasDir(g, r.hops[k].chan, NodeAt(q, r, k - 1))
        /\ HopPol(g, q, r, k).to = r.hops[k].to
-       /\ k >= 2 => HopPol(g, q, r, k).disabled = 0
+       /\ ~Local(q, r, k) => HopPol(g, q, r, k).disabled = 0
   /\ NodeAt(q, r, N(r)) = q.dst
 
 \* "at each hop the amount forwarded lies within that channel's min/max HTLC and capacity
-\*  (and local bandwidth on the first hop)"
+\*  (and local bandwidth on the first hop)" - local bandwidth wherever the hop is local
 HopBounds(g, q, r) ==
   \A k \in 1..N(r) :
     LET p == HopPol(g, q, r, k)
@@ -135,7 +194,7 @@ HopBounds(g, q, r) ==
     /\ a >= p.minHtlc
     /\ p.maxHtlc # 0 => a <= p.maxHtlc
     /\ a <= p.cap
-    /\ k = 1 => a <= p.bw
+    /\ Local(q, r, k) => a <= p.bw
 
 \* "the fee left for each forwarding node is at least what its policy (including inbound
 \*  fees, floored at zero per node) demands": node k receives over hop k, forwards over hop k+1
@@ -149,29 +208,101 @@ FeesPaid(g, q, r) ==
 Deltas(g, q, r) ==
   \A k \in 1..(N(r) - 1) : TlOn(r, k) - TlOn(r, k + 1) >= HopPol(g, q, r, k + 1).delta
 
-\* the recipient is told the requested amount and gets an HTLC that carries it and that
-\* expires no earlier than its final delta demands
+(* ----- what the recipient is to be told ---------------------------------- *)
+\* the amount this route is asked to carry: the request's amount, clamped to the largest
+\* shard the payment allows
+AskAmt(q) == IF q.maxShard > 0 /\ q.maxShard < q.amt THEN q.maxShard ELSE q.amt
+\* a payment session may answer with a smaller shard when (and only when) the payment may
+\* be split further: payment secret (or blinded path), a recipient that accepts multi-part
+\* payments, and room for one more shard after this one
+CanSplit(q) == /\ q.via = "RequestRoute"
+               /\ q.payAddr = 1 \/ q.enc >= 0
+               /\ q.mppDest = 1
+               /\ q.shards + 1 < q.maxParts
+\* the session halves the amount until a route exists, never below the minimum shard
+Halved(a, k) == a \div (2 ^ k)
+IsShardOf(x, a) == \E k \in 1..30 : x = Halved(a, k)
+
+\* the recipient is told the requested amount (or an admissible shard of it) and gets an HTLC
+\* that carries it and that expires no earlier than its final delta demands
 Final(g, q, r) ==
   LET n == N(r) IN
-  /\ r.hops[n].amt = q.amt
+  /\ \/ r.hops[n].amt = AskAmt(q)
+     \/ CanSplit(q) /\ r.hops[n].amt >= q.minShard /\ IsShardOf(r.hops[n].amt, AskAmt(q))
   /\ AmtOn(r, n) >= r.hops[n].amt
   /\ TlOn(r, n) >= r.hops[n].tl
   /\ TlOn(r, n) >= q.height + q.finalDelta
 
-\* "total fees do not exceed the fee limit"
-FeeLimitOk(g, q, r)  == q.feeLimit >= 0 => r.totalAmt - q.amt <= q.feeLimit
+\* and exactly the records the invoice / the caller wants delivered, on the last hop only
+FinalPayload(g, q, r) ==
+  LET n == N(r)
+      h == r.hops[n] IN
+  /\ h.meta = q.meta
+  /\ h.recs = q.recs
+  /\ h.enc = q.enc
+  /\ h.mpp = IF q.payAddr = 1 THEN q.pay ELSE -1
+  /\ h.bp = IF q.enc >= 0 THEN 1 ELSE 0
+  /\ h.tot = IF q.enc >= 0 THEN q.pay ELSE 0
+  /\ \A k \in 1..(n - 1) :
+       LET x == r.hops[k] IN
+       x.mpp = -1 /\ x.meta = -1 /\ x.enc = -1 /\ x.bp = 0 /\ x.tot = 0 /\ x.recs = <<>>
+
+\* "total fees do not exceed the fee limit" (fees = what the sender pays beyond what arrives)
+FeeLimitOk(g, q, r)  == q.feeLimit >= 0 => r.totalAmt - r.hops[N(r)].amt <= q.feeLimit
 \* "total time lock does not exceed the CLTV limit"
 CltvLimitOk(g, q, r) == q.cltvLimit >= 0 => r.totalTL - q.height <= q.cltvLimit
 
 \* "outgoing-channel, last-hop and ignored-node/edge restrictions are respected"
+\* (the outgoing-channel restriction names channels of the pathfinding node: it is defined for
+\* routes that start there; BuildRoute's restriction is the list of nodes to visit)
 Restrictions(g, q, r) ==
-  /\ q.outChans # <<>> => r.hops[1].chan \in Range(q.outChans)
+  /\ (q.outChans # <<>> /\ q.src = q.self) => r.hops[1].chan \in Range(q.outChans)
   /\ q.lastHop # "" => NodeAt(q, r, N(r) - 1) = q.lastHop
   /\ \A k \in 0..N(r) : NodeAt(q, r, k) \notin Range(q.ignNodes)
   /\ \A k \in 1..N(r) : <<NodeAt(q, r, k - 1), NodeAt(q, r, k)>> \notin Range(q.ignPairs)
+  /\ q.nodes # <<>> => /\ N(r) = Len(q.nodes)
+                       /\ \A k \in 1..N(r) : r.hops[k].to = q.nodes[k]
 
-\* "the onion payload fits"
-PayloadFits(g, q, r) == r.payload <= MaxPayload
+(* ----- "the onion payload fits" ------------------------------------------ *)
+(* BOLT 4: the hop payloads share the 1300 bytes of the onion's routing     *)
+(* info.  A payload is a BOLT 1 TLV stream: per record BigSize(type),       *)
+(* BigSize(length), value; in the onion it is preceded by BigSize(stream    *)
+(* length) and followed by a 32 byte HMAC.  Values: amt_to_forward (2) is a *)
+(* tu64, outgoing_cltv_value (4) a tu32 (truncated: no leading zero bytes), *)
+(* short_channel_id (6) 8 bytes - present iff there is a next hop -,        *)
+(* payment_data (8) 32 bytes + tu64 total, encrypted_recipient_data (10),   *)
+(* path key (12) 33 bytes, payment_metadata (16), total_amount_msat (18)    *)
+(* tu64, custom records.  lnd leaves a zero amount / time lock out (blinded *)
+(* relays); a route hop of an unblinded route never has them zero.          *)
+TU(v)    == IF v <= 0 THEN 0 ELSE IF v < 256 THEN 1 ELSE IF v < 65536 THEN 2
+            ELSE IF v < 16777216 THEN 3 ELSE 4            \* recorded values are < 2^31
+BigSz(x) == IF x < 253 THEN 1 ELSE IF x < 65536 THEN 3 ELSE 5
+Rec(t, len) == BigSz(t) + BigSz(len) + len
+RECURSIVE RecsSize(_)
+RecsSize(s) == IF s = <<>> THEN 0 ELSE Rec(Head(s).t, Head(s).n) + RecsSize(Tail(s))
+\* the TLV stream of hop k's payload
+HopStream(r, k) ==
+  LET h == r.hops[k] IN
+    (IF h.amt # 0 THEN Rec(2, TU(h.amt)) ELSE 0)
+  + (IF h.tl # 0 THEN Rec(4, TU(h.tl)) ELSE 0)
+  + (IF k < N(r) THEN Rec(6, 8) ELSE 0)
+  + (IF h.mpp >= 0 THEN Rec(8, 32 + TU(h.mpp)) ELSE 0)
+  + (IF h.enc >= 0 THEN Rec(10, h.enc) ELSE 0)
+  + (IF h.bp = 1 THEN Rec(12, 33) ELSE 0)
+  + (IF h.meta >= 0 THEN Rec(16, h.meta) ELSE 0)
+  + (IF h.tot # 0 THEN Rec(18, TU(h.tot)) ELSE 0)
+  + RecsSize(h.recs)
+HopSize(r, k) == BigSz(HopStream(r, k)) + HopStream(r, k) + 32
+RECURSIVE SizeUpTo(_, _)
+SizeUpTo(r, k) == IF k = 0 THEN 0 ELSE HopSize(r, k) + SizeUpTo(r, k - 1)
+RouteSize(r) == SizeUpTo(r, N(r))
+
+\* "the onion payload fits": the payloads the route prescribes fit the onion, and the onion
+\* can really be built (oracle: sphinx.NewOnionPacket accepts the route)
+PayloadFits(g, q, r) == RouteSize(r) <= MaxPayload /\ r.packed = 1 /\ r.onionOk = 1
+\* fidelity of the size computation above: it is the number of bytes each serialized payload
+\* really takes (a disagreement is an error of this model or of the executor, not a verdict)
+SizeModelOk(r) == r.packed = 1 => \A k \in 1..N(r) : r.hops[k].size = HopSize(r, k)
 
 \* "the route's per-hop amounts and time locks add up consistently to its totals"
 Totals(g, q, r) ==
@@ -188,6 +319,7 @@ ValidRoute(g, q, r) ==
   /\ FeesPaid(g, q, r)
   /\ Deltas(g, q, r)
   /\ Final(g, q, r)
+  /\ FinalPayload(g, q, r)
   /\ FeeLimitOk(g, q, r)
   /\ CltvLimitOk(g, q, r)
   /\ Restrictions(g, q, r)
@@ -211,21 +343,35 @@ PathNodes(g, src, path) ==
   IN f
 IsPath(g, src, path) == Len(path) >= 1 /\ PathNodes(g, src, path)[Len(path)] # ""
 
+\* RequestRoute adds BlockPadding = 3 blocks to the recipient's final delta (the recipient is
+\* given MORE time than it demands, which Final allows); the other entry points add nothing
+Pad(q) == IF q.via = "RequestRoute" THEN 3 ELSE 0
+
+\* the records newRoute puts on the last hop: what the request wants delivered
+LastHopRecs(q) == [mpp  |-> IF q.payAddr = 1 THEN q.pay ELSE -1,
+                   meta |-> q.meta, enc |-> q.enc,
+                   bp   |-> IF q.enc >= 0 THEN 1 ELSE 0,
+                   tot  |-> IF q.enc >= 0 THEN q.pay ELSE 0,
+                   recs |-> q.recs]
+
 BuildRoute(g, q, path) ==
   LET n  == Len(path)
       nd == PathNodes(g, q.src, path)
       pol(k) == Pol(g, path[k], nd[k - 1])
+      want == AskAmt(q)
       \* A[k]: amount on the channel of hop k; the node between hop k and k+1 keeps its fee
-      A[k \in 1..n] == IF k = n THEN q.amt
+      A[k \in 1..n] == IF k = n THEN want
                        ELSE A[k + 1] + NodeFee(pol(k + 1), InPol(g, path[k], nd[k]), A[k + 1])
-      T[k \in 1..n] == IF k = n THEN q.height + q.finalDelta ELSE T[k + 1] + pol(k + 1).delta
-  IN [found |-> 1, src |-> q.src, totalAmt |-> A[1], totalTL |-> T[1],
-      totalFees |-> A[1] - q.amt, recvAmt |-> q.amt, payload |-> 0,
-      hops |-> [k \in 1..n |->
+      T[k \in 1..n] == IF k = n THEN q.height + q.finalDelta + Pad(q) ELSE T[k + 1] + pol(k + 1).delta
+      bare == [found |-> 1, src |-> q.src, totalAmt |-> A[1], totalTL |-> T[1],
+               totalFees |-> A[1] - want, recvAmt |-> want, packed |-> 1, onionOk |-> 1,
+               hops |-> [k \in 1..n |->
                  [chan |-> path[k], to |-> nd[k],
-                  amt |-> IF k = n THEN q.amt ELSE A[k + 1],
+                  amt |-> IF k = n THEN want ELSE A[k + 1],
                   tl  |-> IF k = n THEN T[n] ELSE T[k + 1],
-                  fee |-> IF k = n THEN 0 ELSE A[k] - A[k + 1]]]]
+                  fee |-> IF k = n THEN 0 ELSE A[k] - A[k + 1],
+                  size |-> 0] @@ (IF k = n THEN LastHopRecs(q) ELSE PlainHop)]]
+  IN [bare EXCEPT !.hops = [k \in 1..n |-> [bare.hops[k] EXCEPT !.size = HopSize(bare, k)]]]
 
 (***************************************************************************)
 (* 3. The state machine.                                                   *)
@@ -272,24 +418,37 @@ Refusal(outPol, inPol, hasIn, in, inExp, out, outExp, bw) ==
   ELSE IF hasIn /\ inExp - outExp < outPol.delta THEN "IncorrectCltvExpiry"
   ELSE "ok"
 
-\* the source hands the HTLC to its own link (CheckHtlcTransit: no incoming side);
-\* the local channel's bandwidth is what it can spend (never more than the capacity)
+\* what a channel can carry for the node that sends over it: the pathfinding node knows the
+\* spendable balance of its own channels (never more than the capacity), of any other
+\* channel only the capacity
+Carry(q, me, p) == IF me = q.self /\ p.bw < p.cap THEN p.bw ELSE p.cap
+
+\* the source builds the onion and hands the HTLC to the first channel.  The onion cannot be
+\* built when the payloads need more than its 1300 bytes.  The source has no incoming side;
+\* the pathfinding node sends over its own channel whatever gossip says about it, a foreign
+\* source (QueryRoutes from another node) is held to its `disabled` announcement like any
+\* forwarding node.
 Send ==
   /\ status = "answered"
   /\ LET c == res.hops[1].chan
          K == Known(g, req) IN
-     IF ~HasDir(K, c, req.src) \/ Pol(K, c, req.src).to # res.hops[1].to \/ res.src # req.src
+     IF RouteSize(res) > MaxPayload
+       THEN status' = "OnionTooLarge" /\ UNCHANGED <<pos, htlc>>
+     ELSE IF ~HasDir(K, c, req.src) \/ Pol(K, c, req.src).to # res.hops[1].to \/ res.src # req.src
        THEN status' = "UnknownNextPeer" /\ UNCHANGED <<pos, htlc>>
-     ELSE LET p == Pol(K, c, req.src)
-              v == Refusal(p, NoInbound, FALSE, 0, 0, res.totalAmt, res.totalTL,
-                           IF p.bw < p.cap THEN p.bw ELSE p.cap) IN
-          IF v = "ok" THEN status' = "inflight" /\ pos' = 1 /\
-                           htlc' = [amt |-> res.totalAmt, exp |-> res.totalTL]
-                      ELSE status' = v /\ UNCHANGED <<pos, htlc>>
+     ELSE LET p == Pol(K, c, req.src) IN
+          IF req.src # req.self /\ p.disabled = 1
+            THEN status' = "ChannelDisabled" /\ UNCHANGED <<pos, htlc>>
+          ELSE LET v == Refusal(p, NoInbound, FALSE, 0, 0, res.totalAmt, res.totalTL,
+                                Carry(req, req.src, p)) IN
+               IF v = "ok" THEN status' = "inflight" /\ pos' = 1 /\
+                                htlc' = [amt |-> res.totalAmt, exp |-> res.totalTL]
+                           ELSE status' = v /\ UNCHANGED <<pos, htlc>>
   /\ UNCHANGED <<g, req, res>>
 
 \* node `pos` (not the last one) reads its payload res.hops[pos] and forwards over the
-\* channel of hop pos+1; a remote channel can carry at most its capacity
+\* channel of hop pos+1; a remote channel can carry at most its capacity, the pathfinding
+\* node's own channel (a route from a foreign source may pass through it) its bandwidth
 Forward ==
   /\ status = "inflight" /\ pos < N(res)
   /\ LET me == res.hops[pos].to
@@ -298,9 +457,9 @@ Forward ==
      IF ~HasDir(K, c, me) \/ Pol(K, c, me).to # res.hops[pos + 1].to
        THEN status' = "UnknownNextPeer" /\ UNCHANGED <<pos, htlc>>
      ELSE LET p == Pol(K, c, me) IN
-          IF p.disabled = 1 THEN status' = "ChannelDisabled" /\ UNCHANGED <<pos, htlc>>
+          IF me # req.self /\ p.disabled = 1 THEN status' = "ChannelDisabled" /\ UNCHANGED <<pos, htlc>>
           ELSE LET v == Refusal(p, InPol(K, res.hops[pos].chan, me), TRUE, htlc.amt, htlc.exp,
-                                res.hops[pos].amt, res.hops[pos].tl, p.cap) IN
+                                res.hops[pos].amt, res.hops[pos].tl, Carry(req, me, p)) IN
                IF v = "ok" THEN status' = "inflight" /\ pos' = pos + 1 /\
                                 htlc' = [amt |-> res.hops[pos].amt, exp |-> res.hops[pos].tl]
                            ELSE status' = v /\ UNCHANGED <<pos, htlc>>
@@ -313,7 +472,8 @@ Receive ==
      status' = IF h.to # req.dst THEN "UnknownRecipient"
                ELSE IF htlc.amt < h.amt THEN "FinalIncorrectHtlcAmount"
                ELSE IF htlc.exp < h.tl THEN "FinalIncorrectCltvExpiry"
-               ELSE IF h.amt # req.amt THEN "IncorrectPaymentAmount"
+               ELSE IF ~(h.amt = AskAmt(req) \/ (CanSplit(req) /\ h.amt >= req.minShard /\ IsShardOf(h.amt, AskAmt(req))))
+                    THEN "IncorrectPaymentAmount"
                ELSE IF htlc.exp < req.height + req.finalDelta THEN "FinalExpiryTooSoon"
                ELSE "delivered"
   /\ UNCHANGED <<g, req, res, pos, htlc>>
@@ -326,20 +486,25 @@ Refused == status \notin {"idle", "answered", "inflight", "delivered"}
 (* C19 *)
 Sound == res.found = 1 => ValidRoute(Known(g, req), req, res)
 \* the clauses one by one, so that a rejected trace names the clause
+ConnectedR        == res.found = 1 /\ Connected(Known(g, req), req, res)
 SoundConnected    == res.found = 1 => Connected(Known(g, req), req, res)
-SoundHopBounds    == (res.found = 1 /\ Connected(Known(g, req), req, res)) => HopBounds(Known(g, req), req, res)
-SoundFeesPaid     == (res.found = 1 /\ Connected(Known(g, req), req, res)) => FeesPaid(Known(g, req), req, res)
-SoundDeltas       == (res.found = 1 /\ Connected(Known(g, req), req, res)) => Deltas(Known(g, req), req, res)
-SoundFinal        == (res.found = 1 /\ Connected(Known(g, req), req, res)) => Final(Known(g, req), req, res)
-SoundFeeLimit     == res.found = 1 => FeeLimitOk(Known(g, req), req, res)
+SoundHopBounds    == ConnectedR => HopBounds(Known(g, req), req, res)
+SoundFeesPaid     == ConnectedR => FeesPaid(Known(g, req), req, res)
+SoundDeltas       == ConnectedR => Deltas(Known(g, req), req, res)
+SoundFinal        == ConnectedR => Final(Known(g, req), req, res)
+SoundFinalPayload == (res.found = 1 /\ N(res) >= 1) => FinalPayload(Known(g, req), req, res)
+SoundFeeLimit     == (res.found = 1 /\ N(res) >= 1) => FeeLimitOk(Known(g, req), req, res)
 SoundCltvLimit    == res.found = 1 => CltvLimitOk(Known(g, req), req, res)
 SoundRestrictions == (res.found = 1 /\ N(res) >= 1) => Restrictions(Known(g, req), req, res)
 SoundPayload      == res.found = 1 => PayloadFits(Known(g, req), req, res)
 SoundTotals       == (res.found = 1 /\ N(res) >= 1) => Totals(Known(g, req), req, res)
+\* not a clause of the property: the size computation of this module equals the real bytes
+SizeModelAgrees   == res.found = 1 => SizeModelOk(res)
 
 (* the link to C09: a valid route is never refused by any node on the way *)
 Payable == (res.found = 1 /\ ValidRoute(Known(g, req), req, res)) => ~Refused
 \* and conversely what the nodes accept satisfies the per-hop clauses (ValidRoute is not
-\* stricter than the forwarding rules it summarises)
+\* stricter than the forwarding rules it summarises) and fits the onion
 DeliveredIsHopValid == status = "delivered" => HopClauses(Known(g, req), req, res)
+DeliveredFits       == status = "delivered" => RouteSize(res) <= MaxPayload
 =============================================================================
